@@ -71,6 +71,14 @@ type Gate struct {
 	// with reach conditions and values in terms of the top-level function).
 	Subs     []*Summary
 	Top      *Summary // the activation of the function under evaluation
+	// Search enables the canonical form of pure search loops: a complete
+	// range over a collection without side effects and with one early exit
+	// leaves through that exit iff exists(collection, early-exit test of the
+	// element) and runs to exhaustion otherwise.  slices.Contains and
+	// slices.ContainsFunc get the same form.
+	Search   bool
+	fnByName map[string]*ssa.Function
+	nextDepthBase int
 	seq      int
 	Funcs    map[string]bool // functions evaluated (incl. inlined)
 }
@@ -128,6 +136,19 @@ type frame struct {
 	relCache map[*ssa.BasicBlock][]Ref
 	curRC  Ref
 	curBlock *ssa.BasicBlock
+	loops    []*Loop
+	loopsOK  bool
+	search   map[*Loop]*searchInfo
+	effStart map[*ssa.BasicBlock]int // loop header -> number of effects when it was entered
+	depthBase int                    // number of search scopes enclosing this activation
+}
+
+// searchInfo is the canonical form of one pure search loop (nil X: the loop
+// does not qualify).
+type searchInfo struct {
+	X     Ref // exists(collection, early-exit test)
+	early [2]*ssa.BasicBlock
+	ok    bool
 }
 
 func (g *Gate) eval(fn *ssa.Function, args []*E, bindings []*E, m *mem, base Ref) *Summary {
@@ -144,6 +165,7 @@ func (g *Gate) eval(fn *ssa.Function, args []*E, bindings []*E, m *mem, base Ref
 	if len(g.stack) == 1 {
 		g.Top = f.sum
 	}
+	f.depthBase = g.nextDepthBase
 	for i, p := range fn.Params {
 		if i < len(args) && args[i] != nil {
 			f.env[p] = args[i]
@@ -169,6 +191,9 @@ func (g *Gate) eval(fn *ssa.Function, args []*E, bindings []*E, m *mem, base Ref
 	}
 	f.sum.Loops = len(f.heads)
 	order := rpo(fn, f.back)
+	if g.Search {
+		order = rpoLoops(fn, f.back, f.heads)
+	}
 	f.order = order
 	for _, b := range order {
 		f.block(b)
@@ -209,6 +234,11 @@ func (f *frame) edgeCond(p, b *ssa.BasicBlock) Ref {
 	if !ok {
 		return False
 	}
+	if f.g.Search {
+		if l, x, isExit := f.searchExit(p, b); isExit {
+			return u.bdd.And(f.rc[l.Header], x)
+		}
+	}
 	if len(p.Instrs) == 0 {
 		return rcP
 	}
@@ -244,6 +274,10 @@ func (f *frame) block(b *ssa.BasicBlock) {
 	f.rc[b] = rc
 	if f.heads[b] {
 		f.havocLoopMemory(b)
+		if f.effStart == nil {
+			f.effStart = map[*ssa.BasicBlock]int{}
+		}
+		f.effStart[b] = len(f.sum.Effects)
 	}
 	f.curRC = rc
 	f.curBlock = b
@@ -371,6 +405,7 @@ func (f *frame) val(v ssa.Value) *E {
 	case *ssa.Global:
 		return u.mk("global", v.RelString(nil), v.Type())
 	case *ssa.Function:
+		f.g.regFn(v)
 		return u.mk("func", FuncName(v), v.Type())
 	case *ssa.Builtin:
 		return u.mk("builtin", v.Name(), v.Type())
@@ -636,7 +671,10 @@ func (f *frame) call(in ssa.Instruction, c *ssa.CallCommon, rc Ref, typ types.Ty
 		}
 	}
 	if f.canInline(callee) {
+		saveBase := f.g.nextDepthBase
+		f.g.nextDepthBase = f.depthBase + f.loopDepth(in.Block())
 		sub := f.g.eval(callee, args, bindings, f.mem, rc)
+		f.g.nextDepthBase = saveBase
 		if sub != nil {
 			f.g.Subs = append(f.g.Subs, sub)
 			f.sum.Effects = append(f.sum.Effects, sub.Effects...)
@@ -658,6 +696,11 @@ func (f *frame) call(in ssa.Instruction, c *ssa.CallCommon, rc Ref, typ types.Ty
 		}
 	}
 	name := calleeName(callee)
+	if f.g.Search && (name == "slices.Contains" || name == "slices.ContainsFunc") && len(args) == 2 {
+		if e := f.searchCall(in, name, args, rc); e != nil {
+			return e
+		}
+	}
 	if IsPureLib(name) {
 		return u.LibCall(name, typ, args...)
 	}
@@ -860,6 +903,7 @@ func (f *frame) instr(b *ssa.BasicBlock, in ssa.Instruction, rc Ref) {
 		for _, bnd := range in.Bindings {
 			bs = append(bs, f.val(bnd))
 		}
+		f.g.regFn(in.Fn.(*ssa.Function))
 		f.env[in] = u.mk("makeclosure", FuncName(in.Fn.(*ssa.Function)), in.Type(), bs...)
 	case *ssa.Range:
 		f.env[in] = u.mk("range", f.tag+":"+in.Name(), in.Type(), f.val(in.X))
@@ -1195,6 +1239,14 @@ func (f *frame) relEdgeConds(b *ssa.BasicBlock) []Ref {
 			if f.back[[2]int{p.Index, x.Index}] {
 				continue
 			}
+			if f.g.Search {
+				if l, sx, isExit := f.searchExit(p, x); isExit {
+					if pr, ok := rel[l.Header]; ok {
+						r = u.bdd.Or(r, u.bdd.And(pr, sx))
+					}
+					continue
+				}
+			}
 			if pr, ok := rel[p]; ok {
 				r = u.bdd.Or(r, u.bdd.And(pr, f.localCond(p, x)))
 			}
@@ -1203,6 +1255,16 @@ func (f *frame) relEdgeConds(b *ssa.BasicBlock) []Ref {
 	}
 	out := make([]Ref, len(b.Preds))
 	for i, p := range b.Preds {
+		if f.g.Search && !f.back[[2]int{p.Index, b.Index}] {
+			if l, sx, isExit := f.searchExit(p, b); isExit {
+				if pr, ok := rel[l.Header]; ok {
+					out[i] = u.bdd.And(pr, sx)
+				} else {
+					out[i] = False
+				}
+				continue
+			}
+		}
 		if pr, ok := rel[p]; ok && !f.back[[2]int{p.Index, b.Index}] {
 			out[i] = u.bdd.And(pr, f.localCond(p, b))
 		} else {
@@ -1288,4 +1350,340 @@ func (u *U) Under(e *E, care Ref) *E {
 		return u.Under(e.Args[1], care)
 	}
 	return u.ITE(e.B, u.Under(e.Args[0], u.bdd.And(care, e.B)), u.Under(e.Args[1], u.bdd.And(care, u.bdd.Not(e.B))))
+}
+
+// ---- canonical search loops ----
+
+func (g *Gate) regFn(fn *ssa.Function) {
+	if g.fnByName == nil {
+		g.fnByName = map[string]*ssa.Function{}
+	}
+	g.fnByName[FuncName(fn)] = fn
+}
+
+// BVar is the element variable bound by the exists at nesting depth d; BIdx
+// is its position.
+func (u *U) BVar(d int, typ types.Type) *E { return u.mk("bvar", fmt.Sprint(d), typ) }
+func (u *U) BIdx(d int) *E                 { return u.mk("bidx", fmt.Sprint(d), types.Typ[types.Int]) }
+
+// Exists builds the atom "some element of coll satisfies pred" (pred is stated
+// over BVar(d)/BIdx(d)).
+func (u *U) Exists(coll *E, pred Ref) Ref {
+	if pred == False {
+		return False
+	}
+	return u.Atom(u.mk("exists", "", types.Typ[types.Bool], coll, u.Bool(pred)))
+}
+
+// rpoLoops is a reverse post-order in which the blocks of a loop precede the
+// blocks its exits lead to (successors that leave the innermost loop of a block
+// are visited first, so they finish first).
+func rpoLoops(fn *ssa.Function, back map[[2]int]bool, heads map[*ssa.BasicBlock]bool) []*ssa.BasicBlock {
+	type lp struct{ blocks map[*ssa.BasicBlock]bool }
+	var loops []lp
+	for h := range heads {
+		loops = append(loops, lp{loopBlocks(h)})
+	}
+	inner := func(b *ssa.BasicBlock) map[*ssa.BasicBlock]bool {
+		var best map[*ssa.BasicBlock]bool
+		for _, l := range loops {
+			if l.blocks[b] && (best == nil || len(l.blocks) < len(best)) {
+				best = l.blocks
+			}
+		}
+		return best
+	}
+	seen := make([]bool, len(fn.Blocks))
+	var post []*ssa.BasicBlock
+	var dfs func(b *ssa.BasicBlock)
+	dfs = func(b *ssa.BasicBlock) {
+		seen[b.Index] = true
+		in := inner(b)
+		succs := append([]*ssa.BasicBlock{}, b.Succs...)
+		if in != nil {
+			sort.SliceStable(succs, func(i, j int) bool { return !in[succs[i]] && in[succs[j]] })
+		}
+		for _, s := range succs {
+			if back[[2]int{b.Index, s.Index}] || seen[s.Index] {
+				continue
+			}
+			dfs(s)
+		}
+		post = append(post, b)
+	}
+	dfs(fn.Blocks[0])
+	for i, j := 0, len(post)-1; i < j; i, j = i+1, j-1 {
+		post[i], post[j] = post[j], post[i]
+	}
+	return post
+}
+
+func (f *frame) loopList() []*Loop {
+	if !f.loopsOK {
+		f.loops = loopsOf(f.fn)
+		f.loopsOK = true
+	}
+	return f.loops
+}
+
+// loopDepth is the number of loops of the activation's function containing b.
+func (f *frame) loopDepth(b *ssa.BasicBlock) int {
+	n := 0
+	for _, l := range f.loopList() {
+		if l.Blocks[b] {
+			n++
+		}
+	}
+	return n
+}
+
+// searchExit: is p->b an exit edge of a canonical search loop?  Returns the
+// loop and the condition of taking the edge relative to the loop header
+// (exists(...) for the early exit, its negation for exhaustion).
+func (f *frame) searchExit(p, b *ssa.BasicBlock) (*Loop, Ref, bool) {
+	l := innermostLoop(f.loopList(), p)
+	if l == nil || l.Blocks[b] {
+		return nil, False, false
+	}
+	si := f.searchInfoOf(l)
+	if si == nil || !si.ok {
+		return nil, False, false
+	}
+	u := f.g.U
+	if p == l.Header {
+		return l, u.bdd.Not(si.X), true
+	}
+	if si.early == [2]*ssa.BasicBlock{p, b} {
+		return l, si.X, true
+	}
+	return nil, False, false
+}
+
+func (f *frame) searchInfoOf(l *Loop) *searchInfo {
+	if si, ok := f.search[l]; ok {
+		return si
+	}
+	// every block of the loop must have been evaluated
+	for b := range l.Blocks {
+		if _, done := f.rc[b]; !done {
+			return nil // not cached: asked too early
+		}
+	}
+	if f.search == nil {
+		f.search = map[*Loop]*searchInfo{}
+	}
+	si := &searchInfo{}
+	f.search[l] = si
+	u := f.g.U
+	ro := rangedOver(l)
+	if ro == nil || !ro.Full || ro.Kind != "index" {
+		return si
+	}
+	// the only loop-carried value is the position
+	var basePhi *ssa.Phi
+	switch x := ro.Index.(type) {
+	case *ssa.Phi:
+		basePhi = x
+	case *ssa.BinOp:
+		basePhi, _ = x.X.(*ssa.Phi)
+	}
+	if basePhi == nil {
+		return si
+	}
+	for _, in := range l.Header.Instrs {
+		if ph, ok := in.(*ssa.Phi); ok && ph != basePhi {
+			if e := f.env[ph]; e != nil && e.Op == "loopphi" {
+				return si
+			}
+		}
+	}
+	// exits: exhaustion from the header, exactly one early exit, all leading
+	// to the enclosing loop level
+	parent := func(b *ssa.BasicBlock) *Loop { return innermostLoop(f.loopList(), b) }
+	var outer *Loop
+	for _, l2 := range f.loopList() {
+		if l2 != l && l2.Blocks[l.Header] && (outer == nil || len(l2.Blocks) < len(outer.Blocks)) {
+			outer = l2
+		}
+	}
+	nEarly := 0
+	for _, ex := range l.Exits {
+		if parent(ex[1]) != outer {
+			return si
+		}
+		if ex[0] != l.Header {
+			nEarly++
+			si.early = ex
+		}
+	}
+	if nEarly != 1 {
+		return si
+	}
+	// no side effects in the body
+	start, have := f.effStart[l.Header]
+	if !have {
+		return si
+	}
+	for _, ef := range f.sum.Effects[start:] {
+		if ef.Kind == "store" && ef.Local {
+			continue
+		}
+		return si
+	}
+	// the early-exit test relative to the header
+	rel := map[*ssa.BasicBlock]Ref{l.Header: True}
+	for _, x := range f.order {
+		if x == l.Header || !l.Blocks[x] {
+			continue
+		}
+		var r Ref = False
+		for _, p := range x.Preds {
+			if f.back[[2]int{p.Index, x.Index}] {
+				continue
+			}
+			if l2, sx, isExit := f.searchExit(p, x); isExit {
+				if pr, ok := rel[l2.Header]; ok {
+					r = u.bdd.Or(r, u.bdd.And(pr, sx))
+				}
+				continue
+			}
+			if pr, ok := rel[p]; ok {
+				r = u.bdd.Or(r, u.bdd.And(pr, f.localCond(p, x)))
+			}
+		}
+		rel[x] = r
+	}
+	pr, ok := rel[si.early[0]]
+	if !ok {
+		return si
+	}
+	test := u.bdd.And(pr, f.localCond(si.early[0], si.early[1]))
+	// strip the loop's own continue condition (a single literal)
+	var body *ssa.BasicBlock
+	for _, s := range l.Header.Succs {
+		if l.Blocks[s] {
+			body = s
+		}
+	}
+	if body == nil {
+		return si
+	}
+	cont := f.localCond(l.Header, body)
+	sup := u.bdd.Support(cont)
+	if len(sup) != 1 {
+		return si
+	}
+	test = u.bdd.Cofactor(test, sup[0], cont == u.bdd.Var(sup[0]))
+	// element and position become the bound variables
+	collE := f.val(ro.Coll)
+	idxE := f.val(ro.Index)
+	d := f.depthBase + f.loopDepth(l.Header) - 1
+	var elemT types.Type
+	switch t := ro.Coll.Type().Underlying().(type) {
+	case *types.Slice:
+		elemT = t.Elem()
+	case *types.Array:
+		elemT = t.Elem()
+	case *types.Pointer:
+		if a, ok := t.Elem().Underlying().(*types.Array); ok {
+			elemT = a.Elem()
+		}
+	case *types.Basic:
+		elemT = types.Typ[types.Uint8]
+	}
+	if elemT == nil {
+		return si
+	}
+	pred := f.bindElem(test, collE, idxE, d, elemT)
+	phiE := f.env[basePhi]
+	bad := false
+	for _, at := range u.AtomsOf(pred) {
+		if u.Mentions(at, func(x *E) bool { return x == phiE || (x.Op == "loopphi" && strings.HasPrefix(x.Aux, f.tag+":")) }) {
+			bad = true
+		}
+	}
+	if bad {
+		return si
+	}
+	si.X = u.Exists(collE, pred)
+	si.ok = true
+	return si
+}
+
+// bindElem rewrites a test over coll[idx] / idx into one over BVar(d) / BIdx(d).
+func (f *frame) bindElem(test Ref, collE, idxE *E, d int, elemT types.Type) Ref {
+	u := f.g.U
+	bi := u.BIdx(d)
+	t1 := u.SubstBool(test, map[string]*E{idxE.key: bi})
+	sub := map[string]*E{}
+	for _, at := range u.AtomsOf(t1) {
+		for _, x := range u.Collect(at, func(x *E) bool {
+			return (x.Op == "index" && x.Args[0] == collE && x.Args[1] == bi) ||
+				(x.Op == "load" && x.Args[0].Op == "iaddr" && x.Args[0].Args[0] == collE && x.Args[0].Args[1] == bi)
+		}) {
+			sub[x.key] = u.BVar(d, elemT)
+		}
+	}
+	if len(sub) > 0 {
+		t1 = u.SubstBool(t1, sub)
+	}
+	return t1
+}
+
+// searchCall gives slices.Contains / slices.ContainsFunc the canonical form.
+func (f *frame) searchCall(in ssa.Instruction, name string, args []*E, rc Ref) *E {
+	u := f.g.U
+	coll := args[0]
+	d := f.depthBase
+	if in != nil && in.Block() != nil {
+		d += f.loopDepth(in.Block())
+	}
+	var elemT types.Type
+	if coll.Typ != nil {
+		if st, ok := coll.Typ.Underlying().(*types.Slice); ok {
+			elemT = st.Elem()
+		}
+	}
+	if elemT == nil {
+		return nil
+	}
+	bv := u.BVar(d, elemT)
+	if name == "slices.Contains" {
+		return u.Bool(u.Exists(coll, u.ToBool(u.Eq(bv, args[1]))))
+	}
+	fv := args[1]
+	var callee *ssa.Function
+	var bindings []*E
+	switch fv.Op {
+	case "makeclosure":
+		callee = f.g.fnByName[fv.Aux]
+		bindings = fv.Args
+	case "func":
+		callee = f.g.fnByName[fv.Aux]
+	}
+	if callee == nil || callee.Blocks == nil {
+		return nil
+	}
+	for _, s := range f.g.stack {
+		if s == callee {
+			return nil
+		}
+	}
+	n0 := len(f.sum.Effects)
+	saveBase := f.g.nextDepthBase
+	f.g.nextDepthBase = d + 1
+	sub := f.g.eval(callee, []*E{bv}, bindings, f.mem, rc)
+	f.g.nextDepthBase = saveBase
+	if sub == nil || len(sub.Rets) == 0 {
+		return nil
+	}
+	for _, ef := range sub.Effects {
+		if !(ef.Kind == "store" && ef.Local) {
+			return nil
+		}
+	}
+	_ = n0
+	f.g.Subs = append(f.g.Subs, sub)
+	v := f.retValue(sub, rc, types.Typ[types.Bool])
+	return u.Bool(u.Exists(coll, u.ToBool(v)))
 }
